@@ -117,6 +117,8 @@ def check_property(prop, tier="quick", seed=0, repo=None, spec=None):
         print(f"CHECKER-ERROR property={prop} cannot load the repository: {e}")
         return 3
     quals = [q for q, c in ctx.contracts.items() if prop in c.props and not c.trusted and "#" not in q]
+    skipped_quick = [q for q in quals if ctx.contracts[q].thorough_only and tier != "thorough"]
+    quals = [q for q in quals if q not in skipped_quick]
     results = verify_many(quals, repo, second_solver=(tier == "thorough")) if quals else []
     lem = run_lemmas(ctx, prop)
     if spec.get("tags"):
@@ -234,6 +236,7 @@ def check_property(prop, tier="quick", seed=0, repo=None, spec=None):
         "lemmas": [{"name": o["name"], "result": o["result"], "text": o.get("text")} for o in lem],
         "by_backend": by_backend, "solver_time_s": {"sum": round(sum(times), 3), "max": round(max(times or [0]), 3)},
         "undecided": [{"what": u["qual"], "why": u.get("error")} for u in undecided],
+        "not_run_in_this_tier": [{"qual": q, "why": "contract marked thorough_only (too slow for the per-change check); run ./vcheck %s --tier thorough" % prop} for q in skipped_quick],
         "known_findings_matched": [k["id"] for k, _ in known_hit],
         "samples": [{"obligation": o["name"], "clause": o.get("text"), "result": o["result"], "backend": o.get("backend")} for o in obligations[:6]],
         "explanation": spec.get("explanation", ""),
